@@ -76,6 +76,20 @@ PROPS = {
         "trusted_base": TB_COMMON,
         "assumptions": ["injected functions terminate"],
     },
+    "C08": {
+        "lean": ["GV.Props.C08"],
+        "scenarios": [{"scn": "kc", "n": {"quick": 300, "thorough": 3000},
+                       "aspects": ["set", "sorted", "index", "exec", "exists", "model", "crash", "driver"]},
+                      {"scn": "kc", "filter": "long", "n": {"quick": 60, "thorough": 800},
+                       "aspects": ["set", "sorted", "index", "exec", "exists", "model", "crash", "driver"]}],
+        "rule": "random histories (1-10 and 1-40 operations) of BuildRuleFromString / BuildRuleWithIncremental / RemoveRules over 7 names, saliences in a 5-value range (ties) or the whole int64 range, several rules per call, rejected texts in between; after every operation the container is dumped and the sort model executed; non-trivial = at least two operations and two installed rules",
+        "trusted_base": [
+            "Lean 4.33 kernel; axioms allowed: propext, Classical.choice, Quot.sound (audited per theorem)",
+            "hand-written Lean model of BuildRuleFromString / BuildRuleWithIncremental / updateIncremental / RemoveRules / BinarySearch (value level; slice aliasing argued in DESIGN.md 4.3), tied by the differential runs and by source fingerprints",
+            "/verif/harness and /verif/checklib comparator; sort.SliceStable assumed stable; Go map iteration order arbitrary (a parameter of the model)"],
+        "fingerprints": ["builder:", "internal/tool:", "internal/base:KnowledgeContext", "engine:updateIncremental"],
+        "assumptions": ["one compile unit never defines a name twice (rejected by the listener, C10)"],
+    },
 }
 
 ORCH_NOTE = ("Model = skeleton regenerated from engine/gengine.go by /verif/extract on every run (T1); theorems hold for all "
@@ -100,5 +114,10 @@ MANIFEST_TEXT = {
     "C14": {"text": "Proof: conformance of the four stop-tag skeletons; corollaries: tag never set => identical to the plain variant; the setting rule is the last to run; mix runs nothing else.",
             "note": ORCH_NOTE, "technique": "Lean 4 conformance proof over regenerated skeletons + differential runs"},
 }
+
+MANIFEST_TEXT["C08"] = {
+    "text": "Proof: container invariant (unique names, sorted slice is a permutation of the rule map in non-increasing salience order, index map = positions) is preserved by full build, incremental merge (binary-search insertion with the shadowed mid) and removal for every map iteration order, and each operation refines the abstract rule-set operation; history_refines lifts this to every finite history. Differential histories against the real builder tie the hand-written model to the code.",
+    "note": "Model of the merge loop is hand-written (value level), tied by differential histories and source fingerprints rather than regenerated; Lean kernel + harness + comparator trusted.",
+    "technique": "Lean 4 invariant + refinement proof + differential operation histories"}
 
 NOT_APPLICABLE = {}
